@@ -13,10 +13,10 @@ func genC01() *GenCfg {
 			"badget": 2, "badset": 2, "badins": 2, "badrem": 2, "reget": 2,
 			"reopen": 2, "commit": 1, "evict": 1,
 		},
-		Roots:   [][]RootSpec{{{K: "arr", Addr: 1, TI: 1}}, {{K: "arr", Addr: 1, TI: 1}}, {{K: "arr", Addr: 1, TI: 1}}, {{K: "arr", Addr: 0, TI: 1}}},
+		Roots:     [][]RootSpec{{{K: "arr", Addr: 1, TI: 1}}, {{K: "arr", Addr: 1, TI: 1}}, {{K: "arr", Addr: 1, TI: 1}}, {{K: "arr", Addr: 0, TI: 1}}},
 		NondetPct: 30,
-		MaxBulk: 120,
-		Keys:    []int{48},
+		MaxBulk:   120,
+		Keys:      []int{48},
 		ValW: map[string]int{"u": 10, "s0": 4, "s1": 4, "s2": 3, "s3": 2, "s4": 2, "s5": 2, "s6": 1, "s7": 3,
 			"some": 3, "arr": 3, "map": 2, "cmap": 1},
 		MaxDepth: 2, MaxElems: 5,
